@@ -113,6 +113,19 @@ def _bits(op):
         if b.size < n:
             b = np.concatenate([b, rs.randint(0, 2, n - b.size)])
     b[0], b[1], b[2], b[3] = 0, 1, 1, 0
+    # the eye folds pairs of slots: a pattern is in the statement's domain ("random and PRBS patterns") only if it
+    # has transitions at even and at odd slot boundaries - a fair random pattern has ~n/4 of each; a run-length
+    # pattern can by accident have all its transitions at one parity (seen once in a soak: 10 transitions, all odd),
+    # and then only one of the two eye crossings exists at all
+    k = 0
+    while True:
+        tr = np.where(np.diff(b) != 0)[0] + 1
+        par = np.bincount(tr % 2, minlength=2)
+        if par.min() >= 4 or k > 50:
+            break
+        pos = 4 + int(rs.randint(0, n - 6))
+        b[pos] ^= 1                       # adds transitions at pos and pos+1 (one of each parity) or removes them
+        k += 1
     return b
 
 
